@@ -4,6 +4,8 @@ import (
 	"bytes"
 	"fmt"
 	"reflect"
+	"runtime"
+	"runtime/debug"
 	"strings"
 	"time"
 
@@ -18,6 +20,7 @@ func init() {
 	trieOracles["C05"] = oracleC05
 	register(&Check{ID: "C05", Level: "model_checking", Run: runC05, QuickBudget: 200 * time.Second, ThoroughBudget: 45 * time.Minute})
 	Replayers["c05hist"] = replayC05Hist
+	Replayers["c05build"] = replayC05Build
 }
 
 // answers renders every answer of one instance to one query.
@@ -263,6 +266,27 @@ func observe(st *trie.SlimTrie, qs []string, complete bool, withStat bool) (stri
 			sb.WriteString(answers(st, q, false))
 			sb.WriteByte(';')
 		}
+		// the typed getter reads the leaf bytes directly (all history streams
+		// carry 4-byte values or none)
+		for i, q := range qs {
+			if i%4 == 0 {
+				if id := st.GetID(q); id >= 0 {
+					if _, has := st.Get(q); has {
+						func() {
+							defer func() {
+								if r := recover(); r != nil {
+									fmt.Fprintf(&sb, "GetI32(%x) panics;", q)
+								}
+							}()
+							if v, _ := st.Get(q); v != nil {
+								x, f := st.GetI32(q)
+								fmt.Fprintf(&sb, "%d/%v;", x, f)
+							}
+						}()
+					}
+				}
+			}
+		}
 		if complete {
 			for _, s := range []string{"", "\x00", "\x0f", "\x7f", "\x80", "\xff"} {
 				sb.WriteString(scanAll(st, s, true, true, 1000))
@@ -291,6 +315,11 @@ func applyOp(st *trie.SlimTrie, op histOp, al []histStream) (err error, p interf
 			st.Get("\x00")
 			st.Search("\x7f")
 			st.RangeGet("\xff")
+			for _, q := range []string{"", "\x00", "\x00\x00", "\x0f\xf0", "\x7f", "\xf0", "\xff", "\xff\xff"} {
+				if v, found := st.Get(q); found && v != nil {
+					st.GetI32(q)
+				}
+			}
 			if st.GetID("") >= -1 {
 				func() {
 					defer func() { recover() }() // scans refuse incomplete tries
@@ -422,9 +451,12 @@ func runC05(r *h.Run) {
 		drop := map[string]bool{"lift1": true, "bigroot-lo": true, "bigroot-hi": true, "shift2": true, "shift5": true, "shift11": true}
 		p.scaffoldFilter = func(n string) bool { return !drop[n] }
 	}
-	r.Rule = "(a) for every trie of the C01 space (all 16 option combinations, encoders I32/String16/VarEnc, run patterns, nil values) and every query of Q: Get, GetID, RangeGet, Search, GetI32 (where applicable), scans from every start (complete modes), Stat and String are identical on the fresh, the Unmarshal-loaded and the proto-loaded instance (result-to-result, false positives included); (b) on every fresh trie: the same input built 4 times gives identical bytes, len(Marshal) = proto.Size = len(proto.Marshal), Marshal(Unmarshal(Marshal(t))) = Marshal(t) (short-table scaffolds with tied bitmap frequencies included); (c) explicit-state exploration of load/reset histories: every sequence of length <= 3 over {Unmarshal(s), proto.Unmarshal(s)} x 14 streams, Reset and ReadEverything (every read API once, incl. Marshal and proto.Size, so that cached read state is exposed to the next load) (empty; default, complete, complete without values, inner-only, leaf-only, de-duplicated small tries; one with 257-bit and short nodes; legacy 0.5.3, 0.5.9, 0.5.10-innpref, 0.5.10-allpref; a truncated and a bad-version stream) and Reset, from a never-used and from a built instance; differential oracle: the observation vector (answers to Q, scans, Stat, String, Marshal bytes) equals that of a fresh instance that only loaded the last stream, or the empty observation after Reset. A state is a distinct (marshaled bytes, options, encoder) resp. a distinct observation vector"
+	r.Rule = "(a) for every trie of the C01 space (all 16 option combinations, encoders I32/String16/VarEnc, run patterns, nil values) and every query of Q: Get, GetID, RangeGet, Search, GetI32 (where applicable), scans from every start (complete modes), Stat and String are identical on the fresh, the Unmarshal-loaded and the proto-loaded instance (result-to-result, false positives included); (b) on every fresh trie: the same input built 4 times gives identical bytes, len(Marshal) = proto.Size = len(proto.Marshal), Marshal(Unmarshal(Marshal(t))) = Marshal(t) (short-table scaffolds with tied bitmap frequencies included); (c) explicit-state exploration of load/reset histories: every sequence of length <= 3 over {Unmarshal(s), proto.Unmarshal(s)} x 14 streams, Reset and ReadEverything (every read API once, incl. Marshal and proto.Size, so that cached read state is exposed to the next load) (empty; default, complete, complete without values, inner-only, leaf-only, de-duplicated small tries; one with 257-bit and short nodes; legacy 0.5.3, 0.5.9, 0.5.10-innpref, 0.5.10-allpref; a truncated and a bad-version stream) and Reset, from a never-used and from a built instance; differential oracle: the observation vector (answers to Q, scans, Stat, String, Marshal bytes) equals that of a fresh instance that only loaded the last stream, or the empty observation after Reset. (d) build histories: every sequence of 2..3 builds over 11 inputs (tiny / small / short-table tries in filter, default and complete mode, the empty list, refused unsorted lists incl. one refused late, refused over-long runs at the root and deep in the trie, the same deep list accepted with InnerPrefix), run on one OS thread with the collector off: the last build's outcome (error class or marshaled bytes) equals the outcome of the same build run first. A state is a distinct (marshaled bytes, options, encoder) resp. a distinct observation vector"
 	r.Assumptions = append([]string{"the state after a rejected load is decided by C07, not here", "a deep-digest difference without an observable difference is logged, not raised"}, commonAssumptions...)
 	runTriePass(r, buildPhases(r, p), oracleC05, nil)
+
+	// (d) build histories
+	runC05BuildHistories(r)
 
 	// (c) histories
 	sp := newSpaceCtx(r.Seed)
@@ -496,6 +528,190 @@ func runC05(r *h.Run) {
 				names = append(names, o.String(al))
 			}
 			w.Sample(map[string]interface{}{"start": u.start, "history": names})
+		}
+	})
+}
+
+// ---------- (d) build histories ----------
+
+// buildInput is one NewSlimTrie call of the build-history alphabet.
+type buildInput struct {
+	Name string
+	Keys []string
+	Vals []int32 // nil => no values
+	Opt  h.Opt4
+}
+
+func buildAlphabet(sp *spaceCtx) []buildInput {
+	long := strings.Repeat("\x6b", 33000)
+	var deep []string
+	for i := 0; i < 60; i++ {
+		deep = append(deep, string([]byte{0x21 + byte(i%6)*0x11, byte(i / 6), 0x15}), string([]byte{0x21 + byte(i%6)*0x11, byte(i / 6), 0x25}))
+	}
+	// the over-long run hangs below one of the deepest filler keys, so the build
+	// is refused late in its breadth-first walk, after every other node was seen
+	deep = append(deep, deep[len(deep)-1]+"zz"+long+"\x10", deep[len(deep)-1]+"zz"+long+"\x20")
+	deep = uniq(sortedCopy(deep))
+	filler := shortFiller(sp.sigma, 2, true)
+	seq := func(n int) []int32 {
+		r := make([]int32, n)
+		for i := range r {
+			r[i] = int32(i/2 + 1)
+		}
+		return r
+	}
+	small := []string{"", "\x00", "\x0f\xf0", "\xf0", "\xff\xff"}
+	al := []buildInput{
+		{"tiny-filter", []string{"\x10", "\x10\x01", "\x20", "\xf0\xff"}, nil, h.Opt4{D: 1}},
+		{"small-default", small, seq(5), h.Opt4{D: 1}},
+		{"small-complete", small, seq(5), h.Opt4{D: 1, C: 1}},
+		{"short-table", filler, nil, h.Opt4{D: 1}},
+		{"short-table-complete", filler, seq(len(filler)), h.Opt4{D: 0, C: 1}},
+		{"unsorted(refused)", []string{"b", "a"}, nil, h.Opt4{D: 1}},
+		{"unsorted-late(refused)", append(append([]string{}, filler...), filler[0]), nil, h.Opt4{D: 1}},
+		{"long-run-at-root(refused)", []string{long + "\x10", long + "\x20"}, nil, h.Opt4{D: 1}},
+		{"long-run-deep(refused)", deep, nil, h.Opt4{D: 1}},
+		{"long-run-deep-innerprefix(accepted)", deep, nil, h.Opt4{D: 1, I: 1}},
+		{"empty", nil, nil, h.Opt4{D: 1}},
+	}
+	return al
+}
+
+// runBuild executes one build and renders its outcome (error class or marshaled bytes).
+func runBuild(b buildInput) string {
+	var vals interface{}
+	if b.Vals != nil {
+		vals = b.Vals
+	}
+	var out string
+	p := h.Safely(func() {
+		st, err := trie.NewSlimTrie(encode.I32{}, append([]string{}, b.Keys...), vals, b.Opt.ToOpt())
+		if err != nil {
+			out = "error"
+			if st != nil {
+				out += "+trie"
+			}
+			return
+		}
+		buf, merr := st.Marshal()
+		out = fmt.Sprintf("ok:%x:%v", buf, merr)
+	})
+	if p != nil {
+		return fmt.Sprintf("panic:%v", p)
+	}
+	return out
+}
+
+type c05BuildCase struct {
+	Seq   []int    `json:"sequence"`
+	Names []string `json:"names"`
+	Seed  int64    `json:"seed"`
+}
+
+// evalBuildSeq runs a sequence of builds on one OS thread with the collector
+// off (so that anything a build parks in a pool or a package variable is still
+// there for the next one) and compares the last outcome with the outcome of the
+// same build run first.
+func evalBuildSeq(w *h.Worker, al []buildInput, ref []string, seq []int) *h.Viol {
+	var got string
+	done := make(chan struct{})
+	go func() {
+		defer close(done)
+		runtime.LockOSThread()
+		defer runtime.UnlockOSThread()
+		for i, bi := range seq {
+			o := runBuild(al[bi])
+			w.Trans++
+			if i == len(seq)-1 {
+				got = o
+			}
+		}
+	}()
+	<-done
+	last := seq[len(seq)-1]
+	if got != ref[last] {
+		return &h.Viol{Sig: "build-depends-on-history", Msg: fmt.Sprintf("build %q gives a different outcome after the builds before it than when it runs first (lengths %d vs %d, first difference at %d)", al[last].Name, len(got), len(ref[last]), firstDiff([]byte(got), []byte(ref[last])))}
+	}
+	return nil
+}
+
+func replayC05Build(prop string, raw []byte) *h.Viol {
+	var cj c05BuildCase
+	if err := jsonUnmarshal(raw, &cj); err != nil {
+		return &h.Viol{Msg: err.Error()}
+	}
+	al := buildAlphabet(newSpaceCtx(cj.Seed))
+	ref := make([]string, len(al))
+	for i := range al {
+		ref[i] = runBuild(al[i])
+	}
+	old := debug.SetGCPercent(-1)
+	defer debug.SetGCPercent(old)
+	w := h.NewRun(prop, "quick", 0, "model_checking", 0).W0()
+	for rep := 0; rep < 5; rep++ {
+		if v := evalBuildSeq(w, al, ref, cj.Seq); v != nil {
+			return v
+		}
+	}
+	return nil
+}
+
+func runC05BuildHistories(r *h.Run) {
+	sp := newSpaceCtx(r.Seed)
+	al := buildAlphabet(sp)
+	ref := make([]string, len(al))
+	var names []string
+	for i := range al {
+		ref[i] = runBuild(al[i])
+		names = append(names, al[i].Name+" => "+ref[i][:min(5, len(ref[i]))])
+	}
+	r.Bounds["build_history_alphabet"] = names
+	depth := 3
+	r.Bounds["build_history_depth"] = depth
+	// the collector stays off during this phase: a sync.Pool is emptied by it
+	old := debug.SetGCPercent(-1)
+	defer debug.SetGCPercent(old)
+	r.Phase("build-histories", func(emit func(u interface{}) bool) {
+		var rec func(cur []int) bool
+		rec = func(cur []int) bool {
+			if len(cur) >= 2 {
+				if !emit(append([]int{}, cur...)) {
+					return false
+				}
+			}
+			if len(cur) == depth {
+				return true
+			}
+			for i := range al {
+				if !rec(append(cur, i)) {
+					return false
+				}
+			}
+			return true
+		}
+		rec(nil)
+	}, func(w *h.Worker, x interface{}) {
+		seq := x.([]int)
+		w.Begin(func() string { return fmt.Sprintf("C05 build history %v", seq) })
+		w.Evals++
+		w.StatesN++
+		w.NontrivN++
+		if v := evalBuildSeq(w, al, ref, seq); v != nil {
+			var ns []string
+			for _, i := range seq {
+				ns = append(ns, al[i].Name)
+			}
+			v.Msg += fmt.Sprintf(" | build history %v", ns)
+			v.Kind, v.Case, v.Unit = "c05build", c05BuildCase{Seq: seq, Names: ns, Seed: r.Seed}, w.Unit()
+			w.Report(*v)
+			return
+		}
+		if len(seq) == 3 && seq[0] == 8 {
+			var ns []string
+			for _, i := range seq {
+				ns = append(ns, al[i].Name)
+			}
+			w.Sample(map[string]interface{}{"build_history": ns})
 		}
 	})
 }
